@@ -5,6 +5,7 @@ CONSTANTS
   PerUser = 2
   MaxSlots = 2
   InitSlots = {1}
+  InitTruth = {"unknown"}
   AnyInitAttr = FALSE
   Statuses = {"unknown", "offline", "away", "online"}
   SlotBudget = 0
@@ -20,5 +21,8 @@ CONSTANTS
   WPriv = 100
   StateChangeNotifies = FALSE
   SlotsChangeNotifies = TRUE
+  TaskEndNotifies = TRUE
+  RequeueTail = FALSE
+  TrackPerUser = TRUE
 PROPERTY EventuallyStarted
 CHECK_DEADLOCK FALSE
